@@ -625,9 +625,9 @@ def c08(obs, act, viols, probes):
         from workloads import bodies as _b
         pool = _b.PLUGS[spec.get('tag', '')]
         for (arg, cls, serial) in e[5]:
-          if name in want and pool[want[name][arg]].__name__ != cls:
+          if name in want and pool[want[name][arg]].LABEL != cls:
             viols.append(_v('phase_plug_class', phase=name, arg=arg, got=cls,
-                            expected=pool[want[name][arg]].__name__))
+                            expected=pool[want[name][arg]].LABEL))
   # exactly one tearDown per constructed instance
   tds = [e for e in log if e[3] == 'plug_td_start']
   for cls, serial in live.items():
@@ -667,7 +667,7 @@ def c08(obs, act, viols, probes):
     if s0 is not None:
       pool = set()
       from workloads import bodies
-      allowed = set(bodies.PLUGS[spec.get('tag', '')][pi].__name__ for pi in ts['plugs'].values())
+      allowed = set(bodies.PLUGS[spec.get('tag', '')][pi].LABEL for pi in ts['plugs'].values())
       existing = set(e[4] for e in ctors if e[0] < s0)
       if not existing <= allowed:
         viols.append(_v('foreign_plug_exists_during_test_start', existing=sorted(existing), allowed=sorted(allowed)))
